@@ -20,6 +20,7 @@ import (
 	"sync"
 	"time"
 
+	"verif/internal/autoyield"
 	"verif/internal/choice"
 	"verif/internal/sim"
 )
@@ -51,6 +52,9 @@ func Trouble(format string, a ...any) {
 	os.Exit(2)
 }
 
+// AutoYields is the number of scheduling points the last Build inserted.
+var AutoYields int
+
 // Build rebuilds the workers from the current working tree of /repo.
 func Build(race bool) string {
 	bin := filepath.Join(VerifDir, "bin", "simrun")
@@ -73,6 +77,22 @@ func Build(race bool) string {
 		os.WriteFile(filepath.Join(VerifDir, ".work", "go.alt.sum"), sum, 0o644)
 		args = append([]string{args[0], "-modfile=" + altMod}, args[1:]...)
 	}
+	// scheduling points before every synchronisation operation of the tree
+	// under test, inserted mechanically into copies (go build -overlay)
+	repo := RepoDir
+	if alt := os.Getenv("VERIF_REPO"); alt != "" {
+		repo = alt
+	}
+	ovDir := filepath.Join(VerifDir, ".work", "overlay")
+	replace, n, err := autoyield.Overlay(repo, ovDir)
+	if err != nil {
+		Trouble("rewriting %s for scheduling points failed (does the tree parse?): %v", repo, err)
+	}
+	AutoYields = n
+	ovFile := filepath.Join(ovDir, "overlay.json")
+	ob, _ := json.Marshal(map[string]any{"Replace": replace})
+	os.WriteFile(ovFile, ob, 0o644)
+	args = append([]string{args[0], "-overlay=" + ovFile}, args[1:]...)
 	args = append(args, bin, "./cmd/simrun")
 	cmd := exec.Command("go", args...)
 	cmd.Dir = VerifDir
